@@ -276,6 +276,14 @@ class SimRunner:
         return "sim-runner"
 
 
+def flatten_subs(subs):
+    """all sub-request names of a composite task's `subs` (see make_track), in order of appearance"""
+    out = []
+    for x in subs:
+        out.extend(flatten_subs(x) if isinstance(x, list) else [x])
+    return out
+
+
 def make_sim_composite():
     """the real Composite runner, allowed to issue `sim` sub-requests; every logical request is logged"""
     from esrally.driver import runner
@@ -542,9 +550,11 @@ def make_track(scenario):
             # a composite request (real runner.Composite): `subs` = list of streams, each a list of sub-request names; streams run
             # concurrently, the sub-requests of a stream one after the other
             op_type = "sim-composite"
-            params["requests"] = [
-                {"stream": [{"operation-type": "sim", "name": n, "task": n, "parent": t["name"]} for n in stream]} for stream in t["subs"]
-            ]
+            # an item of `subs` is a sub-request name (issued where it stands) or a list of items (a stream; streams may nest)
+            def items(l):
+                return [{"stream": items(x)} if isinstance(x, list) else {"operation-type": "sim", "name": x, "task": x, "parent": t["name"]} for x in l]
+
+            params["requests"] = items(t["subs"])
         op = track.Operation(t["name"], op_type, params=params, param_source="sim-source")
         return track.Task(
             t["name"],
@@ -554,6 +564,7 @@ def make_track(scenario):
             warmup_iterations=t.get("warmup_iterations"),
             time_period=t.get("time_period"),
             warmup_time_period=t.get("warmup_time_period"),
+            ramp_up_time_period=t.get("ramp_up_time_period"),
             completes_parent=bool(t.get("cp")),
             any_completes_parent=bool(t.get("acp")),
             tags=t.get("tags"),
